@@ -2,6 +2,7 @@ import OV.Lemmas.C03Steps
 import OV.Lemmas.C03State
 import OV.Lemmas.C03Uses
 import OV.Lemmas.C04Closed
+import OV.Lemmas.C04Total
 /-!
 # C04 — `optimize()` is total on valid models; result valid, same interface; overridable
 initializer-inputs are never folded
@@ -298,6 +299,29 @@ theorem fold_closed_fragmentA (ctx : Ctx) (hnf : ctx.isFunction = false) (info :
     (sc : List Name) (hcl : GraphClosed sc g) : GraphClosed sc (foldGraph ctx info g).2 :=
   foldGraph_closedA ctx hnf info g hfr hnofresh sc hcl
 
+/-- **Single assignment is preserved on fragment A** (one level): if the initializer names and the node outputs of the
+graph are pairwise distinct and no node output is a formal input (`SSA`), the same holds of the graph
+`FoldConstantsPass` returns.  For every option tuple and annotation table; no execution hypothesis.  Proof: through the
+node loop the registered initializers followed by the outputs of emitted ++ pending nodes stay a *permutation* of the
+original node outputs (`ClA.perm`: a kept or replaced node keeps its outputs, a folded node's output moves to the
+initializers), and pruning only removes initializers. -/
+theorem fold_ssa_fragmentA (ctx : Ctx) (hnf : ctx.isFunction = false) (info : List (Name × VInfo)) (g : Graph)
+    (hfr : ∀ n ∈ g.nodes, FragBk n) (hnofresh : ∀ k : Nat, cnt ("%" ++ toString k) g.nodes = 0)
+    (hssa : SSA g) : SSA (foldGraph ctx info g).2 :=
+  foldGraph_ssaA ctx hnf info g hfr hnofresh hssa
+
+/-- **Totality on fragment A** (`fold_total`, one level): for every graph in single-assignment form whose nodes are in
+fragment A, every option tuple, annotation table and oracle table, the model of `FoldConstantsPass` ends without an error
+state: no partial evaluator raises (their index operations are modelled with their Python failure modes),
+`register_initializer` never meets a name that is already registered (the clash the real code raises on, C09-N3's
+family), `replace_node` is never given lists of different lengths, and the model's own step fuel
+(`64 + 16·|nodes| + 16·|uses|`) is never exhausted.  The fuel argument is a rank: an `Identity` node is never replaced, a
+`Cast` only by an `Identity`, any other node by an `Identity` or a `Cast` (`EvShape`), so each node costs at most three
+steps (`visitNodes_total`, invariant `TotA`). -/
+theorem fold_total_fragmentA (ctx : Ctx) (hnf : ctx.isFunction = false) (info : List (Name × VInfo)) (g : Graph)
+    (hfr : ∀ n ∈ g.nodes, FragBk n) (hssa : SSA g) : (foldGraph ctx info g).1.err = none :=
+  foldGraph_totalA ctx hnf info g hfr hssa
+
 def tokWA : CInfo := { tok := "t1", dtype := 1, shape := [], ints := none, isZero := some false }
 def tokWB : CInfo := { tok := "t2", dtype := 1, shape := [], ints := none, isZero := some false }
 
@@ -307,9 +331,11 @@ def ctxWA : Ctx :=
     oracle := [("Mul||18|t1&t2|", .single { tok := "f", dtype := 1, shape := [], ints := none, isZero := some false })] }
 
 def infoWA : List (Name × VInfo) :=
-  [("a", { dtype := some 1, shape := some [], const := some tokWA }), ("b", { dtype := some 1, shape := some [], const := some tokWB })]
+  [("a", { dtype := some 1, shape := some [], const := some tokWA }), ("b", { dtype := some 1, shape := some [], const := some tokWB }),
+   ("x", { dtype := some 1 })]
 
-/-- `c = Constant; o = Mul(a, b); s = Sub(x, o); y = Identity(s); z = Div(y, c); w = Concat(z); u = Dropout(w)`, outputs `y, u` -/
+/-- `c = Constant; o = Mul(a, b); s = Sub(x, o); y = Identity(s); z = Div(y, c); w = Concat(z); u = Dropout(w);
+k = Cast<1>(x); q = CastLike(u, x)`, outputs `y, u, k, q`; `x` is annotated with element type 1 -/
 def gWFA : Graph :=
   .mk ["x"] [("a", "t1"), ("b", "t2")]
     [.mk "Constant" "" [] ["c"] [("value", .tensor "t1")] [],
@@ -318,13 +344,16 @@ def gWFA : Graph :=
      .mk "Identity" "" [some "s"] ["y"] [] [],
      .mk "Div" "" [some "y", some "c"] ["z"] [] [],
      .mk "Concat" "" [some "z"] ["w"] [("axis", .int 0)] [],
-     .mk "Dropout" "" [some "w"] ["u"] [] []] ["y", "u"]
+     .mk "Dropout" "" [some "w"] ["u"] [] [],
+     .mk "Cast" "" [some "x"] ["k"] [("to", .int 1)] [],
+     .mk "CastLike" "" [some "u", some "x"] ["q"] [] []] ["y", "u", "k", "q"]
 
 /-- every rewriting step of fragment A fires on `gWFA`: `a`, `b` are popped, `o` is registered -/
 example : (foldGraph ctxWA infoWA gWFA).2.nodes.map (fun n => (n.op, n.inputs, n.outputs)) =
       [("Constant", [], ["c"]), ("Sub", [some "x", some "o"], ["s"]), ("Identity", [some "s"], ["y"]),
-       ("Div", [some "s", some "c"], ["z"]), ("Identity", [some "z"], ["w"]), ("Identity", [some "z"], ["u"])] ∧
-    (foldGraph ctxWA infoWA gWFA).2.outputs = ["s", "z"] ∧ (foldGraph ctxWA infoWA gWFA).2.inits = [("o", "f")] ∧
+       ("Div", [some "s", some "c"], ["z"]), ("Identity", [some "z"], ["w"]), ("Identity", [some "z"], ["u"]),
+       ("Identity", [some "x"], ["k"]), ("Cast", [some "z"], ["q"])] ∧
+    (foldGraph ctxWA infoWA gWFA).2.outputs = ["s", "z", "k", "q"] ∧ (foldGraph ctxWA infoWA gWFA).2.inits = [("o", "f")] ∧
     (foldGraph ctxWA infoWA gWFA).1.removed = ["b", "a"] := by decide
 
 theorem fresh_ne2 (k : Nat) (s : String) (hs : s.toList.head? ≠ some '%') : "%" ++ toString k ≠ s := by
@@ -338,7 +367,7 @@ theorem gWFA_hyps : (∀ n ∈ gWFA.nodes, FragBk n) ∧ (∀ k : Nat, cnt ("%" 
   refine ⟨?_, ?_, ?_, ?_⟩
   · intro n hn
     simp only [gWFA, Graph.nodes, List.mem_cons, List.mem_nil_iff, or_false] at hn
-    rcases hn with rfl | rfl | rfl | rfl | rfl | rfl | rfl
+    rcases hn with rfl | rfl | rfl | rfl | rfl | rfl | rfl | rfl | rfl
     · exact ⟨rfl, by decide, Or.inr (Or.inl ⟨by decide, rfl, "c", rfl⟩)⟩
     · exact ⟨rfl, by decide, Or.inl ⟨by decide, fun v => rfl⟩⟩
     · exact ⟨rfl, by decide, Or.inl ⟨by decide, fun v => rfl⟩⟩
@@ -346,13 +375,15 @@ theorem gWFA_hyps : (∀ n ∈ gWFA.nodes, FragBk n) ∧ (∀ k : Nat, cnt ("%" 
     · exact ⟨rfl, by decide, Or.inl ⟨by decide, fun v => rfl⟩⟩
     · exact ⟨rfl, by decide, Or.inr (Or.inr (Or.inr (clsX_concat1 _ "z" "w" rfl rfl rfl)))⟩
     · exact ⟨rfl, by decide, Or.inr (Or.inr (Or.inr (clsX_dropout _ "w" "u" [] rfl rfl (by decide) rfl)))⟩
+    · exact ⟨rfl, by decide, Or.inr (Or.inr (Or.inr (clsX_cast _ "x" "k" rfl rfl rfl)))⟩
+    · exact ⟨rfl, by decide, Or.inr (Or.inr (Or.inr (clsX_castlike _ "u" "q" [some "x"] rfl rfl rfl)))⟩
   · intro k
     simp only [cnt, gWFA, Graph.nodes, List.flatMap_cons, List.flatMap_nil, Node.inputs, List.append_nil, List.cons_append,
       List.nil_append]
     apply List.count_eq_zero.mpr
     simp only [List.mem_cons, Option.some.injEq, List.mem_nil_iff, or_false]
     intro h
-    rcases h with h | h | h | h | h | h | h | h | h
+    rcases h with h | h | h | h | h | h | h | h | h | h | h | h
     · exact fresh_ne2 k "a" (by decide) h
     · exact fresh_ne2 k "b" (by decide) h
     · exact fresh_ne2 k "x" (by decide) h
@@ -362,17 +393,45 @@ theorem gWFA_hyps : (∀ n ∈ gWFA.nodes, FragBk n) ∧ (∀ k : Nat, cnt ("%" 
     · exact fresh_ne2 k "c" (by decide) h
     · exact fresh_ne2 k "z" (by decide) h
     · exact fresh_ne2 k "w" (by decide) h
+    · exact fresh_ne2 k "x" (by decide) h
+    · exact fresh_ne2 k "u" (by decide) h
+    · exact fresh_ne2 k "x" (by decide) h
   · simp [gWFA, ClosedL, Graph.inits, Graph.inputs, Graph.nodes, Node.inputs, Node.outputs]
   · intro o ho
     simp only [gWFA, Graph.outputs, List.mem_cons, List.mem_nil_iff, or_false] at ho
     right
-    rcases ho with rfl | rfl
+    rcases ho with rfl | rfl | rfl | rfl
     · exact ⟨.mk "Identity" "" [some "s"] ["y"] [] [], by simp [gWFA, Graph.nodes], by simp [Node.outputs]⟩
     · exact ⟨.mk "Dropout" "" [some "w"] ["u"] [] [], by simp [gWFA, Graph.nodes], by simp [Node.outputs]⟩
+    · exact ⟨.mk "Cast" "" [some "x"] ["k"] [("to", .int 1)] [], by simp [gWFA, Graph.nodes], by simp [Node.outputs]⟩
+    · exact ⟨.mk "CastLike" "" [some "u", some "x"] ["q"] [] [], by simp [gWFA, Graph.nodes], by simp [Node.outputs]⟩
 
 /-- …hence the conclusions hold of the result on `gWFA` -/
 example : GraphClosed [] (foldGraph ctxWA infoWA gWFA).2 :=
   fold_closed_fragmentA ctxWA rfl infoWA gWFA gWFA_hyps.1 gWFA_hyps.2.1 [] gWFA_hyps.2.2
+
+example : SSA gWFA := by
+  refine ⟨by decide, ?_⟩
+  intro o ho
+  have : o ∈ ["c", "o", "s", "y", "z", "w", "u", "k", "q"] := ho
+  simp only [List.mem_cons, List.mem_nil_iff, or_false] at this
+  rcases this with rfl | rfl | rfl | rfl | rfl | rfl | rfl | rfl | rfl <;> decide
+
+example : (foldGraph ctxWA infoWA gWFA).1.err = none :=
+  fold_total_fragmentA ctxWA rfl infoWA gWFA gWFA_hyps.1
+    ⟨by decide, by
+      intro o ho
+      have : o ∈ ["c", "o", "s", "y", "z", "w", "u", "k", "q"] := ho
+      simp only [List.mem_cons, List.mem_nil_iff, or_false] at this
+      rcases this with rfl | rfl | rfl | rfl | rfl | rfl | rfl | rfl | rfl <;> decide⟩
+
+example : SSA (foldGraph ctxWA infoWA gWFA).2 :=
+  fold_ssa_fragmentA ctxWA rfl infoWA gWFA gWFA_hyps.1 gWFA_hyps.2.1
+    ⟨by decide, by
+      intro o ho
+      have : o ∈ ["c", "o", "s", "y", "z", "w", "u", "k", "q"] := ho
+      simp only [List.mem_cons, List.mem_nil_iff, or_false] at this
+      rcases this with rfl | rfl | rfl | rfl | rfl | rfl | rfl | rfl | rfl <;> decide⟩
 
 /-! ### refuted clauses (findings) and regression witnesses of fixed ones -/
 
